@@ -118,11 +118,13 @@ Init == /\ slots = Slots0 /\ slots0 = Slots0 /\ reg = Reg0
         /\ evals = 0 /\ crashAt \in 0..MaxEvals /\ unwinding = FALSE
         /\ lastEval = [ok |-> TRUE]
 
-\* A view created while a substitution is active takes the substituted tensors for the object's own; using it after
-\* that block has ended puts them back into the object (TLC: NewView inside EnterUse, Exit, EnterUse(v2, original),
-\* Exit leaves the substituted tensors installed).  xitorch's functionals create their views before any substitution
-\* or drop them before it ends, so the model only creates views outside use-blocks; recorded executions are not
-\* restricted in this way (Trace_ParamSubst.TNew).
+\* A view created while a substitution is active took the substituted tensors for the object's own; using it after
+\* that block had ended put them back into the object (TLC: NewView inside EnterUse, Exit, EnterUse(v2, original),
+\* Exit leaves the substituted tensors installed).  This IS reachable - a functional called inside the function of
+\* another functional on the same object - and was repaired in the code (set_objparams now saves what the object
+\* holds at that moment).  That part of the protocol is modelled and replayed separately in NestedViews.tla; this
+\* module keeps creating views outside use-blocks only (with that restriction belief = content, which is what the
+\* list-identity machinery below relies on); recorded executions are not restricted (Trace_ParamSubst.TNew).
 NewView(v) ==
    /\ ~unwinding /\ v \notin Live /\ FreeL <= MaxLists
    /\ \A i \in 1..Depth : frames[i].k # "use"
